@@ -6,7 +6,7 @@
 //! instance of the code) fed only the last S(N) inputs (no history => no accumulated drift; C09
 //! bounds the truncation below 1e-12).
 //! Drift clause: three-decade streams of 1e5 (quick) / 1e6 (thorough) values, output within 1e-6 of
-//! natural scale of the reference at 200+ checkpoints and at every one of the last 2N steps (f32:
+//! natural scale of the reference at 200+ checkpoints and at every one of the last min(2N, 32) steps (f32:
 //! 1e-2 on streams of 1e4).  Flat clause: volatile prefix, then N+1..3N identical values; within
 //! 1e-4 of scale of the exact answer.
 
@@ -90,9 +90,33 @@ fn exact_windowed(k: &Kind, tail: &[f64]) -> Option<f64> {
     crate::xq::reset();
     let xq: Vec<Xq> = tail.iter().map(|x| Xq::of(*x)).collect();
     let t = xq.len() - 1;
+    let direct = |f: fn(&[Xq]) -> Xq, n: usize| Ex::Val(f(ow::win(&xq, n)));
     let ex = match *k {
+        // (only the last step is wanted: the definitions over the last window, not the whole sequence
+        // over the tail, except where a hold refers further back)
+        Kind::Rsi(n) if t + 1 >= n => {
+            let (g, l) = ow::gains_losses(&xq, t, n);
+            Ex::Val(if l == Xq::of(0.0) { Xq::of(100.0) } else { Xq::of(100.0) * g / (g + l) })
+        }
+        Kind::MyRsi(n) if t + 1 >= n && {
+            let (g, l) = ow::gains_losses(&xq, t, n);
+            g + l != Xq::of(0.0)
+        } =>
+        {
+            let (g, l) = ow::gains_losses(&xq, t, n);
+            Ex::Val((g - l) / (g + l))
+        }
         Kind::Rsi(n) => ow::seq_rsi(&xq, n)[t],
         Kind::MyRsi(n) => ow::seq_myrsi(&xq, n)[t],
+        Kind::Sma(n) => direct(ow::mean, n),
+        Kind::Cumulative(n) => direct(ow::sum, n),
+        Kind::Min(n) => direct(ow::min, n),
+        Kind::Max(n) => direct(ow::max, n),
+        Kind::Welford(n) => direct(ow::sample_std, n),
+        Kind::HL(n) => direct(ow::hl, n),
+        Kind::BinEnt(n) => direct(ow::entropy, n),
+        Kind::Vst(n) => direct(ow::vst, n),
+        Kind::Vsct(n) => direct(ow::vsct, n),
         Kind::Cti(n) => Ex::Val(ow::pearson_time(ow::win(&xq, n))),
         Kind::Net(n) => Ex::Val(ow::kendall_time(ow::win(&xq, n))),
         Kind::Cog(n) => Ex::Val(ow::cog(ow::win(&xq, n))),
@@ -141,6 +165,30 @@ fn three_decades(len: usize, nice: bool, rng: &mut Rng) -> Vec<f64> {
     }
     v
 }
+
+/// three-decade stream that leaves its first value far behind: from 1 up to 1000 in steps of 1, then
+/// a walk inside [990, 1000] with steps of 0.001 .. 0.017 (non-zero steps within three decades)
+fn climb_then_hover(len: usize, rng: &mut Rng) -> Vec<f64> {
+    let mut v = Vec::with_capacity(len);
+    let mut x = 1.0f64;
+    for i in 0..len {
+        if i > 0 && i < 1000 {
+            x += 1.0;
+        } else if i >= 1000 {
+            // (decimal steps: on a dyadic grid the sums of squares would be exact and nothing drifts)
+            let s = (0.001 + 0.016 * rng.unit53()) * if rng.coin() { 1.0 } else { -1.0 };
+            let y = x + s;
+            x = if (990.0..=1000.0).contains(&y) { y } else { x - s };
+        }
+        v.push(x);
+    }
+    v
+}
+
+/// windowed views that recompute over the window: also run at windows of 300 and 520 on the longest
+/// streams (a block size or a switch to running sums above some window length shows only there)
+/// (CTI five times, CoG three times: quotients of sums of products, where a cancellation shows first)
+const LARGE_VIEWS: [usize; 20] = [0, 1, 2, 3, 4, 5, 6, 7, 10, 11, 12, 14, 15, 16, 12, 12, 12, 12, 14, 14];
 
 struct Ctx<'a> {
     v: &'a V,
@@ -226,7 +274,7 @@ fn check<T: Scalar>(cx: &Ctx, xs: &[f64], t: usize, got: Option<T>, big: f64, ou
     let cell = format!("{}/{}/{}", v.name, cx.clause, T::NAME);
     out.cell(&cell, 1);
     let dev = (g.f() - e).abs() / scale;
-    out.maxi(&format!("max_deviation_over_scale/{}/{}", cx.clause, v.name), if dev.is_finite() { dev } else { f64::MAX });
+    out.maxi(&format!("max_deviation_over_scale/{}/{}{}/{}", cx.clause, if v.kind.n().unwrap_or(0) >= 300 { "N>=300/" } else { "" }, T::NAME, v.name), if dev.is_finite() { dev } else { f64::MAX });
     if !(dev <= cx.tol) {
         let n = v.kind.n().unwrap_or(1);
         let mut pred = if matches!(v.kind, Kind::Vst(_) | Kind::Vsct(_)) && super::welford_residue_explains(&v.kind, xs, t, g.f(), T::EPS) { "explained_by_running_m2_rounding_residue" } else { "any" };
@@ -279,7 +327,7 @@ fn drift<T: Scalar>(v: &V, xs: &[f64], out: &mut TrialOut) {
             out.count("trials_ended_by_panic_of_code_under_test(C15)", 1);
             return;
         };
-        if t % every == every - 1 || t + 2 * n >= xs.len() {
+        if t % every == every - 1 || t + (2 * n).min(32) >= xs.len() {
             if !check(&cx, xs, t, got, big, out) {
                 return;
             }
@@ -332,11 +380,29 @@ impl Monitor for C16 {
         "C16"
     }
     fn plan(&self, cfg: &Cfg) -> u64 {
-        (25 * ns(cfg).len()) as u64 * cfg.tier.pick(6, 16)
+        (25 * ns(cfg).len()) as u64 * cfg.tier.pick(6, 16) + LARGE_VIEWS.len() as u64 * cfg.tier.pick(1, 4)
     }
     fn trial(&self, cfg: &Cfg, idx: u64, out: &mut TrialOut) {
         let nl = ns(cfg);
         let mut rng = Rng::for_trial(cfg.seed, "C16", idx);
+        let main = (25 * nl.len()) as u64 * cfg.tier.pick(6, 16);
+        if idx >= main {
+            // large windows, 10^6 values (f64), drift clause
+            let j = idx - main;
+            let vi = LARGE_VIEWS[(j % LARGE_VIEWS.len() as u64) as usize];
+            let n = *rng.pick(&[300usize, 400, 520]);
+            let v = view(vi, n, &mut rng);
+            let hover = j % LARGE_VIEWS.len() as u64 >= 14 || rng.chance(2, 3);
+            let len = 1_000_000;
+            let xs = if hover { climb_then_hover(len, &mut rng) } else { three_decades(len, rng.coin(), &mut rng) };
+            out.key(mix(hash_str(&format!("large{:?}{}", v.kind, hover)), gen::hash_f64s(&xs[xs.len() - 64..])));
+            out.count("large_window_trials_of_1e6_values", 1);
+            if j % 5 == 0 {
+                out.sample(format!("drift: {} on {} values ({}), 200 checkpoints + the last min(2N, 32) steps", Spec::leaf(v.kind).show(), len, if hover { "climb from 1 to 1000, then a walk inside [990, 1000] with steps of 0.001..0.017" } else { "three-decade walk" }));
+            }
+            drift::<f64>(&v, &xs, out);
+            return;
+        }
         let vi = (idx % 25) as usize;
         let n = nl[((idx / 25) % nl.len() as u64) as usize];
         let n = super::jitter_n(cfg, n, 2, 50, &mut rng);
@@ -352,7 +418,7 @@ impl Monitor for C16 {
             let len = if f32_run { 10_000 } else { cfg.tier.pick(100_000usize, 1_000_000) / per_update / if v.recursive { 4 } else { 1 } };
             let xs = three_decades(len, nice, &mut rng);
             if idx % 41 == 0 {
-                out.sample(format!("drift: {} on a three-decade stream of {} values ({}), 200 checkpoints + the last 2N steps", Spec::leaf(v.kind).show(), len, if nice { "dyadic grid" } else { "grid of tenths" }));
+                out.sample(format!("drift: {} on a three-decade stream of {} values ({}), 200 checkpoints + the last min(2N, 32) steps", Spec::leaf(v.kind).show(), len, if nice { "dyadic grid" } else { "grid of tenths" }));
             }
             if f32_run {
                 let xs32: Vec<f64> = xs.iter().map(|x| (*x as f32) as f64).collect();
@@ -428,7 +494,7 @@ impl Monitor for C16 {
         v
     }
     fn rule(&self) -> String {
-        "trial = (one of 25 views; N; clause; value grid dyadic or tenths; scalar f64 or f32). drift: three-decade stream (values in [1,1000], non-zero steps in [1/8,100]) of 1e5 (quick) / 1e6 (thorough) values (shorter for O(N)-per-update and recursive views), f64 output vs exact reference at 200 checkpoints and each of the last 2N steps, 1e-6 of natural scale (f32: 1e-2, 1e4 values). flat: three-decade or wide-range (x 2^0..2^20) volatile prefix then N+1..3N copies of c in {1, 1000, 1/8, 0.1, 1/3, 123.456, 7, 0}, every step whose window is flat, 1e-4 of scale (f32: 1e-4 for the views the statement names, 1e-2 for the others; a third of the prefixes - two thirds, 1000..3000 values long, for windowed views at f32 - sit at a high level with a small spread: 1000 / 250 / 12345 +- 1/16 or 1/2). Reference: exact batch oracle over the recent inputs for windowed views; the C11 reference model (SuperSmoother/Roofing: a fresh f64 instance of the code) restarted on the last S(N) inputs for recursive ones. distinct = distinct (view, N, clause, scalar, stream)".into()
+        "trial = (one of 25 views; N; clause; value grid dyadic or tenths; scalar f64 or f32). drift: three-decade stream (values in [1,1000], non-zero steps in [1/8,100]) of 1e5 (quick) / 1e6 (thorough) values (shorter for O(N)-per-update and recursive views), plus, in both tiers, 20 trials of 14 windowed views (CTI five, CoG three times) at N in {300, 400, 520} on 1e6 values (two thirds of them on a stream that climbs from 1 to 1000 and then walks inside [990,1000] with steps of 0.001..0.017), f64 output vs exact reference at 200 checkpoints and each of the last min(2N, 32) steps, 1e-6 of natural scale (f32: 1e-2, 1e4 values). flat: three-decade or wide-range (x 2^0..2^20) volatile prefix then N+1..3N copies of c in {1, 1000, 1/8, 0.1, 1/3, 123.456, 7, 0}, every step whose window is flat, 1e-4 of scale (f32: 1e-4 for the views the statement names, 1e-2 for the others; a third of the prefixes - two thirds, 1000..3000 values long, for windowed views at f32 - sit at a high level with a small spread: 1000 / 250 / 12345 +- 1/16 or 1/2). Reference: exact batch oracle over the recent inputs for windowed views; the C11 reference model (SuperSmoother/Roofing: a fresh f64 instance of the code) restarted on the last S(N) inputs for recursive ones. distinct = distinct (view, N, clause, scalar, stream)".into()
     }
     fn assumptions(&self) -> Vec<String> {
         vec![
